@@ -15,7 +15,7 @@
    on the implementation by harness/c03 on every run. *)
 From Coq Require Import ZArith List String Bool Permutation.
 From GSP Require Import Base.Prelude Value.Time Value.Model Value.Theory
-                        RDF.Model RDF.OrdSort RDF.Order RDF.OrdTree RDF.OrdSpell RDF.OrdLabels
+                        RDF.Model RDF.OrdSort RDF.Order RDF.OrdTree RDF.OrdSpell RDF.OrdLabels RDF.OrdFail
                         SMT.Model SMT.Theory SMT.Sound.
 Import ListNotations.
 Open Scope Z_scope.
@@ -236,3 +236,83 @@ Theorem C03_labels_needs_injective :
     entries_from_rdf F prime (rn_ds rho ds) <> entries_from_rdf F prime ds.
 Proof. exact labels_needs_injective. Qed.
 Print Assumptions C03_labels_needs_injective.
+
+(* ---- converse half, the facts behind the Go oracles c03-out-of-range-accepted,
+   c03-fraction-accepted, c03-add-error-swallowed, duplicate paths (RDF/OrdFail.v) ---- *)
+
+(* a dataset is accepted only if EVERY literal converts (convertStringToXSDValue) *)
+Theorem C03_literals_convert :
+  forall (F : floats) (prime : Z) (ds : dataset) (es : list entry) (g : string)
+         (qsl : list quad) (q : quad) (v dt : string),
+  entries_from_rdf F prime ds = Ok es ->
+  lookup_graph ds g = Some qsl -> In q qsl -> qo q = NLit v dt ->
+  exists x, convert F dt v prime = Ok x.
+Proof. exact literals_convert. Qed.
+Print Assumptions C03_literals_convert.
+
+(* integer grammar (Value/Model.v int_from_str, Go's big.Rat.SetString + IsInt): two lexical
+   forms of the same integer convert to the same value (so, by C03_spelling_dataset, the
+   entries and the root are the same) ... *)
+Theorem C03_integer_spelling_invariant :
+  forall (F : floats) (dt : string) (k : ikind) (l1 l2 : string) (p : Z),
+  classify dt = DInt k -> int_from_str l1 = int_from_str l2 ->
+  convert F dt l1 p = convert F dt l2 p.
+Proof. exact convert_int_spelling. Qed.
+Print Assumptions C03_integer_spelling_invariant.
+
+(* ... and an integer-typed literal ANYWHERE in the dataset that is not an integer (fraction,
+   not a number) or lies outside the range of its type under the prime makes EntriesFromRDF
+   fail: range-end rejection for all five types, all primes, all datasets.  (Two different
+   in-range integers: different roots or a Collision, C03_value_binding_int.) *)
+Theorem C03_integer_literal_rejected :
+  forall (F : floats) (prime : Z) (ds : dataset) (g : string) (qsl : list quad) (q : quad)
+         (v dt : string) (k : ikind),
+  odd_modulus prime -> classify dt = DInt k ->
+  lookup_graph ds g = Some qsl -> In q qsl -> qo q = NLit v dt ->
+  (int_from_str v = None \/
+   exists z, int_from_str v = Some z /\ ~ (lo k prime <= z <= hi k prime)) ->
+  is_ok (entries_from_rdf F prime ds) = false.
+Proof. exact integer_literal_rejected. Qed.
+Print Assumptions C03_integer_literal_rejected.
+
+(* a caller-provided tree whose k-th Add fails: AddEntriesToMerkleTree is never Ok, for every
+   call position n < k <= n + number of entries *)
+Theorem C03_add_error_propagates :
+  forall (H : hasher) (maxlev : nat) (q : Z) (es : list entry) (k n : nat) (t : tree),
+  (n < k <= n + List.length es)%nat ->
+  is_ok (add_entries_ft H maxlev q k n t es) = false.
+Proof. exact add_error_propagates. Qed.
+Print Assumptions C03_add_error_propagates.
+
+(* hence MerklizeJSONLD fails whenever the failing call is one of the entries' Adds, and is
+   the ordinary run when no call fails *)
+Theorem C03_merklize_add_error :
+  forall (H : hasher) (maxlev : nat) (q : Z) (F : floats) (mt : option tree) (ds : dataset)
+         (es : list entry) (k : nat),
+  entries_from_rdf F (h_prime H) ds = Ok es -> (1 <= k <= List.length es)%nat ->
+  is_ok (merklize_tree_ft H maxlev q k F mt ds) = false.
+Proof. exact merklize_ft_fails. Qed.
+Print Assumptions C03_merklize_add_error.
+
+Theorem C03_merklize_no_add_error :
+  forall (H : hasher) (maxlev : nat) (q : Z) (F : floats) (mt : option tree) (ds : dataset),
+  merklize_tree_ft H maxlev q 0 F mt ds = merklize_tree H maxlev q F mt ds.
+Proof. exact merklize_ft_never. Qed.
+Print Assumptions C03_merklize_no_add_error.
+
+(* a successful insertion implies pairwise different paths; a dataset whose entries contain
+   the same path twice is rejected (never merklized with one value silently dropped) *)
+Theorem C03_paths_distinct :
+  forall (H : hasher) (maxlev : nat) (q : Z) (t0 : tree) (es : list entry) (t : tree),
+  wf maxlev t0 -> add_entries H maxlev q t0 es = Ok t -> NoDup (map e_key es).
+Proof. exact add_entries_nodup. Qed.
+Print Assumptions C03_paths_distinct.
+
+Theorem C03_duplicate_path_rejected :
+  forall (H : hasher) (maxlev : nat) (q : Z) (F : floats) (mt : option tree) (ds : dataset)
+         (es : list entry),
+  match mt with Some t0 => wf maxlev t0 | None => True end ->
+  entries_from_rdf F (h_prime H) ds = Ok es -> ~ NoDup (map e_key es) ->
+  is_ok (merklize_tree H maxlev q F mt ds) = false.
+Proof. exact duplicate_path_rejected. Qed.
+Print Assumptions C03_duplicate_path_rejected.
